@@ -204,10 +204,10 @@ func applyHow(r *record, how string) error {
 
 type c07Obs struct {
 	ID         int    `json:"id"`
-	Delivered  int    `json:"delivered"`  // number of whole record payloads read, in order
-	BytesOK    bool   `json:"bytes_ok"`   // what was read is exactly the concatenation of those payloads
+	Delivered  int    `json:"delivered"`   // number of whole record payloads read, in order
+	BytesOK    bool   `json:"bytes_ok"`    // what was read is exactly the concatenation of those payloads
 	ExtraBytes int    `json:"extra_bytes"` // bytes read beyond the last whole matching payload
-	ErrClass   string `json:"err_class"`  // "eof" | "fatal" | "timeout"
+	ErrClass   string `json:"err_class"`   // "eof" | "fatal" | "timeout"
 	ErrText    string `json:"err_text"`
 	RecBits    int    `json:"rec_bits"` // size in bits of the record a single flip targets
 	Panic      string `json:"panic,omitempty"`
